@@ -139,6 +139,9 @@ func gen(r *hx.Rand, tier string) []json.RawMessage {
 	for i := 0; i < nLib; i++ {
 		kind := asm.Kinds[i%len(asm.Kinds)]
 		cfg := asm.GenConfig(r, kind, nops)
+		if i%5 == 3 {
+			cfg = asm.FlushConfig(r, []string{"wb", "wtwb", "wbdram"}[(i/5)%3], r.Range(4, 8))
+		}
 		if i%5 == 4 {
 			cfg = asm.ContendedConfig(r, []string{"ideal", "wb", "banked"}[(i/5)%3], nops)
 		}
